@@ -277,6 +277,16 @@ class World:
                 return blk
         return None
 
+    def safe_dt(self, pnode, dt, floor=1 << 245):
+        """smallest dt' >= dt for which the prescribed target of a child of pnode stays minable (>= floor)"""
+        h = pnode.height + 1
+        if h % self.cfg.period:
+            return dt
+        start = self.uni.nodes[pnode.chain[h - self.cfg.period]]
+        need = -(-floor * self.cfg.timespan // max(1, int.from_bytes(pnode.blk.target, "big")))
+        el = pnode.blk.ts + dt - start.blk.ts
+        return dt if el >= need else dt + (need - el)
+
     def accept(self, label, blk):
         """register a block the universe considers stored (parent must be in the universe)"""
         self.blocks[label] = blk
